@@ -23,6 +23,8 @@ _r = [RegRef(0), RegRef(1)]
 _w = [Command(Op(), [_r[0]]), Command(Op(True), [_r[0], _r[1]])]
 pu.DAG_to_list(pu.list_to_DAG(_w))
 pu.group_operations(_w, lambda op: op.marked)
+import networkx as _nx
+_nx.has_path(pu.list_to_DAG(_w), _w[0], _w[1])
 
 
 def build(cmds):
@@ -89,6 +91,54 @@ def grid(cmds4):
         if [id(c) for c in q] != [id(seq[i]) for i in idx]:
             return False
     return all(k in g for c in seq for k in wires(c))
+
+
+def dagpaths(cmds4):
+    """the DAG itself orders every dependent pair (whatever linearisation is picked later): a path from the earlier to the
+    later command, and never an edge against the input order"""
+    import networkx as nx
+    seq = build(cmds4)
+    dag = pu.list_to_DAG(seq)
+    pos = {id(c): i for i, c in enumerate(seq)}
+    if sorted(map(id, dag.nodes)) != sorted(map(id, seq)):
+        return False
+    for u, v in dag.edges:
+        if pos[id(u)] >= pos[id(v)]:
+            return False
+    for i in range(len(seq)):
+        for j in range(i + 1, len(seq)):
+            if wires(seq[i]) & wires(seq[j]) and not nx.has_path(dag, seq[i], seq[j]):
+                return False
+    return True
+
+
+def okr(cmds, nm=2):
+    """exactly three commands: the shape 'X, a reader of X's wire, X again' needs three"""
+    return len(cmds) == 3 and all(0 <= a < nm and 0 <= b < nm and -1 <= d < nm for a, b, d in cmds)
+
+
+def check_dag_deps_L2(cmds: List[Tuple[int, int, int]]) -> bool:
+    """
+    pre: okd(cmds, 2, 2)
+    post: _
+    """
+    return dagpaths([(a, b, False, d) for a, b, d in cmds])
+
+
+def check_dag_deps_L3(cmds: List[Tuple[int, int, int]]) -> bool:
+    """
+    pre: okr(cmds)
+    post: _
+    """
+    return dagpaths([(a, b, False, d) for a, b, d in cmds])
+
+
+def twin_dag(cmds: List[Tuple[int, int, int]]) -> bool:
+    """
+    pre: okd(cmds, 2, 2)
+    post: not _
+    """
+    return dagpaths([(a, b, False, d) for a, b, d in cmds])
 
 
 def check_roundtrip_L2(cmds: List[Tuple[int, int]]) -> bool:
